@@ -185,4 +185,5 @@ def main():
 
 
 if __name__ == "__main__":
-    main()
+    import common
+    common.run(main, PID)
